@@ -13,3 +13,38 @@ size_t zv_addEntropy_advanced(void* dictBuffer, size_t contentSize, size_t cap, 
     return ZDICT_addEntropyTablesFromBuffer_advanced(dictBuffer, contentSize, cap, samples, sizes, nb, params);
 }
 unsigned zv_hbuffsize(void) { return HBUFFSIZE; }
+
+/* round 3: the offset-code limit ZDICT_analyzeEntropy derives from the dictionary size, observed on the REAL static
+ * function: an all-zero "dictionary" of dictSize bytes (untouched lazy mapping when it is large), no samples; the offcode
+ * table written into the entropy header is decoded again (FSE_readNCount): with no samples every code 0..offcodeMax has
+ * count 1, so the largest symbol present IS offcodeMax.  returns -1 when the function returns an error, -2 harness problem */
+#include <sys/mman.h>
+int zv_offcode_max(unsigned long long dictSize64) {
+    size_t const dictSize = (size_t)dictSize64;
+    size_t const mapLimit = (size_t)1 << 33;
+    unsigned char small[64];
+    unsigned char* dict = small;
+    size_t mapped = 0;
+    BYTE header[HBUFFSIZE];
+    size_t e;
+    int res = -2;
+    memset(small, 0, sizeof small);
+    if (dictSize > sizeof small && dictSize <= mapLimit) {
+        mapped = dictSize;
+        dict = (unsigned char*)mmap(NULL, mapped, PROT_READ, MAP_PRIVATE | MAP_ANONYMOUS | MAP_NORESERVE, -1, 0);
+        if (dict == (unsigned char*)MAP_FAILED) return -2;
+    }
+    e = ZDICT_analyzeEntropy(header, HBUFFSIZE - 8, 3, small, NULL, 0, dict, dictSize, 0);
+    if (ZDICT_isError(e)) res = -1;
+    else {
+        BYTE weights[256]; U32 rank[HUF_TABLELOG_ABSOLUTEMAX + 1]; U32 nbSym = 0, tlog = 0;
+        size_t const hh = HUF_readStats(weights, sizeof weights, rank, &nbSym, &tlog, header, e);
+        if (!HUF_isError(hh) && hh < e) {
+            short ncount[MaxOff + 1]; unsigned maxSV = MaxOff, tl = 0;
+            size_t const oh = FSE_readNCount(ncount, &maxSV, &tl, header + hh, e - hh);
+            if (!FSE_isError(oh)) res = (int)maxSV;
+        }
+    }
+    if (mapped) munmap(dict, mapped);
+    return res;
+}
